@@ -68,6 +68,14 @@ var reGood = []string{`^foo\s*`, `[a-h]`, `\"is\"\s*:\s*\"running\"`, `a>b`, `x|
 var reBad = []string{`[`, `(?!x)`, `a**`, `(`, `a\`, `^\/(?!\/)(.*?)`, `[z-a]`, `\8`, `x{2,1}`, `(?P<n`}
 
 func genRe(r *lib.Rng, badPct int) string {
+	if r.Chance(1, 30) {
+		// a long alternation: valid as a whole, and cut anywhere inside a group it is not
+		alts := make([]string, r.Range(60, 160))
+		for i := range alts {
+			alts[i] = "(w" + strconv.Itoa(i*7) + "x)"
+		}
+		return "^(" + strings.Join(alts, "|") + ")$"
+	}
 	if r.Chance(badPct, 100) {
 		return r.Pick(reBad)
 	}
@@ -100,6 +108,13 @@ func randText(r *lib.Rng, n int) string {
 }
 
 func genMsg(r *lib.Rng) string {
+	if r.Chance(1, 25) {
+		// longer than anything a log line echo would show in full
+		// (a plain filler between two random ends: the oracle tables of a line grow with every
+		// quote and '>' in it)
+		fill := strings.Repeat(r.Pick([]string{"ab ", "x1,", "= ", "zz\t", "é"}), r.Range(180, 500))
+		return strings.TrimLeft(randText(r, r.Range(5, 25))+fill+randText(r, r.Range(5, 25)), blanks)
+	}
 	switch r.Intn(10) {
 	case 0:
 		return ""
